@@ -15,12 +15,20 @@ Fixpoint tsize (e : texpr) : nat :=
   | XCall _ args => S (list_sum (map tsize args))
   | XCallable c args => S (tsize c + list_sum (map tsize args))
   | XIf c t f => S (tsize c + tsize t + tsize f)
+  | XList es => S (list_sum (map tsize es))
+  | XStruct _ fields => S (list_sum (map (fun fe => tsize (snd fe)) fields))
   | _ => 1
   end.
 
 Lemma tsize_in : forall (a : texpr) args, In a args -> tsize a <= list_sum (map tsize args).
 Proof.
   induction args; simpl; intros H; [tauto|]. destruct H as [->|H]; [lia|]. specialize (IHargs H). lia.
+Qed.
+
+Lemma tsize_in_fields : forall (f : str) (a : texpr) fields, In (f, a) fields ->
+  tsize a <= list_sum (map (fun fe => tsize (snd fe)) fields).
+Proof.
+  induction fields; simpl; intros H; [tauto|]. destruct H as [->|H]; [simpl; lia|]. specialize (IHfields H). lia.
 Qed.
 
 Lemma lvl_num_tree : forall neg d, 10 <= lvl (num_tree neg d).
@@ -247,6 +255,17 @@ Proof.
     simpl in Hp. pose proof (IHn e ltac:(lia) Hp Parens) as W. pose proof (lvl_parens e).
     destruct m; cbn [echo_tree wf]; rewrite W, leb_intro by lia; reflexivity.
   - destruct m; reflexivity.
+  - (* XList *)
+    simpl in Hp. destruct m; cbn [echo_tree wf]; apply forallb_map_wf; intros a Ha; apply IHn;
+      try (pose proof (tsize_in a es Ha); lia); eapply forallb_forall in Hp; eauto.
+  - (* XStruct *)
+    simpl in Hp.
+    assert (G : forallb (fun fe : str * sx => wf (snd fe))
+                  (map (fun fe : str * texpr => (fst fe, echo_tree Plain (snd fe))) fields) = true).
+    { apply forallb_forall. intros s Hs'. apply in_map_iff in Hs'. destruct Hs' as ([f a] & <- & Ha). simpl.
+      apply IHn; [pose proof (tsize_in_fields f a fields Ha); lia|].
+      eapply forallb_forall in Hp; [|exact Ha]. exact Hp. }
+    destruct m; cbn [echo_tree wf]; exact G.
 Qed.
 
 (* the echo of every printable expression is read back, as the tree its concrete syntax denotes *)
@@ -335,6 +354,20 @@ Proof.
     destruct m; cbn [echo_tree wrapm desugar erase]; rewrite D1, D2, D3; reflexivity.
   - simpl in Hx. pose proof (IHn e ltac:(lia) Hx Parens) as D. destruct m; cbn [echo_tree desugar erase]; rewrite D; reflexivity.
   - destruct m; reflexivity.
+  - (* XList *)
+    simpl in Hx.
+    assert (HA : forall a, In a es -> desugar (echo_tree Plain a) = erase a).
+    { intros a Ha. apply IHn. pose proof (tsize_in a es Ha). lia. eapply forallb_forall in Hx; eauto. }
+    destruct m; cbn [echo_tree desugar erase]; rewrite map_desugar_echo by exact HA; reflexivity.
+  - (* XStruct *)
+    simpl in Hx.
+    assert (G : map (fun fe : str * sx => (fst fe, desugar (snd fe)))
+                  (map (fun fe : str * texpr => (fst fe, echo_tree Plain (snd fe))) fields)
+                = map (fun fe : str * texpr => (fst fe, erase (snd fe))) fields).
+    { rewrite map_map. apply map_ext_in. intros [f a] Ha. simpl. f_equal.
+      apply IHn; [pose proof (tsize_in_fields f a fields Ha); lia|].
+      eapply forallb_forall in Hx; [|exact Ha]. exact Hx. }
+    destruct m; cbn [echo_tree desugar erase]; rewrite G; reflexivity.
 Qed.
 
 Theorem echo_roundtrip_exact : forall e, printable_t e = true -> exact_t e = true ->
